@@ -24,6 +24,19 @@ PROPS = {
             leg("sharded", "c01-sharded", "rel", quick=3, thorough=16),
         ],
     ),
+    "C02": dict(
+        level="exploration",
+        technique="runtime monitor: concurrent client histories recorded at the API boundary of the real ShardedActorState on a multi-thread runtime (seeded delays at hook H2 hand-off sites, cancelled calls, tiny response pool), checked offline per key with a Wing-Gong/Lowe linearizability search against a sequential model; ThreadSanitizer and Miri builds of the same workload",
+        level_text="2-8 client tasks on a 2/4/8-worker tokio runtime issue 6-24 operations each on 1-4 keys of a ShardedActorState with 1, 2, 4 or 16 shards: GET/SET through the generic, fast, pooled and batch entry points, INCR, APPEND, DEL, GETSET, SETNX, LPUSH/LPOP/LLEN and an EVAL read-modify-write script, with unique written values so every read identifies its write. The response pool holds 1-2 slots (constant reuse), hook H2 injects seeded thread yields / spins / micro-sleeps between the send, await, reply and release steps (site hit counts are reported), and 8% of the calls are abandoned after a few scheduler turns (such operations stay open in the history). Call and return stamps come from one atomic counter taken before the call and after the reply. Each key's sub-history (<= 63 operations) is searched for a linearization that respects real time (memoised on linearized-set x state); a popped value that was never pushed to that key is reported separately. The same binary is rebuilt with -Zsanitizer=thread (-Zbuild-std) and a small instance runs under Miri (thorough).",
+        level_note="schedules are sampled (OS + tokio + injected delays), not enumerated; a checker timeout (3M steps) is counted, never a violation, and more than 10% timeouts make the run inconclusive; multi-key atomicity is not claimed by the property; histories are not replayable by seed: the witness is the recorded history, re-judged offline by --replay; sanitizer legs build without Lua",
+        rule="case = one concurrent history (one server instance, one runtime); distinct_nontrivial = distinct linearization witnesses (sequence of (client, operation kind)) found for key sub-histories that contained overlapping operations of different clients; counters give operations, overlapping pairs, cancelled calls, per-path counts and H2 site hits",
+        assumptions=COMMON_ASSUME + ["stamps from one process-wide AtomicU64 (SeqCst)", "TSan: any report (exit code 66) is attributed to the first /repo/src frame; reports in uninstrumented dependencies would show as no-repo-frame"],
+        legs=[
+            leg("lin", "c02-lin", "rel", quick=4, thorough=16),
+            leg("lin-tsan", "c02-lin", "tsan", quick=1, thorough=8, args={"histories": 150}, env={"TSAN_OPTIONS": "halt_on_error=0 exitcode=66 report_signal_unsafe=0"}, count_distinct=False),
+            leg("lin-miri", "c02-lin", "miri", quick=0, thorough=4, tiers=("thorough",), args={"small": 1, "histories": 2}, count_distinct=False, timeout={"thorough": 3000}),
+        ],
+    ),
     "C03": dict(
         level="exploration",
         technique="runtime monitor: differential twins - the same operation sequence with the same per-operation entry path (generic / fast / pooled / batch) and the same manual clock on a 1-shard and an N-shard ShardedActorState; replies and the full visible keyspace compared after every step",
@@ -100,6 +113,16 @@ PROPS = {
             leg("sync", "c18-sync", "rel", quick=2, thorough=16),
         ],
     ),
+    "C19": dict(
+        level="exploration",
+        technique="runtime monitor: the real HashRing built along every join/leave history of a membership compared key by key; routing tables of GossipRouter::new / from_config / GossipState::queue_deltas compared with get_replicas minus sender; placement fingerprint compared across insertion orders, threads and a child process",
+        level_text="For each configuration (membership of 1-12 sparse or dense ids, rf 1-6 incl. > cluster size, vnodes 1/3/150) the ring is built along all insertion permutations (<= 5 members; sampled beyond), duplicate inputs, incremental joins, detours through larger memberships, leave-and-rejoin and churn; all histories must give the same ordered replica list for 2k keys (empty, long, binary-ish), of length min(rf, members) without duplicates; join/leave of up to 4 nodes may change a key's list only by gaining/losing that node (others keep their order). Every member (sometimes a non-member) routes 1-50-delta batches (repeated keys included) through GossipRouter::new, GossipRouter::from_config (dense grid n x rf x vnodes x sender built from ReplicationConfig::new_partitioned_cluster) and GossipState::queue_deltas: each delta must reach every owner other than the sender and nobody else. A fixed query set yields a placement fingerprint that must be identical across insertion orders, a second thread and a child process.",
+        level_note="vnodes = 0 is treated as a degenerate configuration; equal ring positions (ties) cannot be produced through the public API with 64-bit SipHash positions; per-key replication-factor overrides are not wired into routing in the code under test",
+        rule="case = one (membership, rf, vnodes) configuration with all its histories and routing checks, one cell of the from_config grid, or the fingerprint query set; distinct_nontrivial = distinct (check kind, members, rf, vnodes, history class) and (members, rf, vnodes, path, constructor, sender is member, ring changed under the router)",
+        exhaustive_note="exhaustive over every subset of a dense and a sparse 5-id pool x rf {1,2,3,6} x vnodes {1,3,150} with all permutations",
+        assumptions=COMMON_ASSUME,
+        legs=[leg("place", "c19-place", "rel", quick=1, thorough=16)],
+    ),
     "C20": dict(
         level="exploration",
         technique="runtime monitor: every built-in simulation/DST harness run twice in-process and in three fresh child processes per (harness, preset, seed); canonical dumps (operation trace, result, final state with maps in key order) compared byte for byte",
@@ -108,6 +131,26 @@ PROPS = {
         rule="case = one (harness, preset, seed, ops) compared across 2 in-process runs and 3 child processes; distinct_nontrivial = distinct (harness, preset, seed) triples whose dump has a non-empty trace",
         assumptions=COMMON_ASSUME + ["cross-process runs rely on per-process hash seeds differing: the run counts distinct RandomState/ahash probe values and reports them"],
         legs=[leg("repro", "c20-repro", "rel", quick=2, thorough=16)],
+    ),
+    "C10": dict(
+        level="exploration",
+        technique="runtime monitor: WAL files written by the real WalRotator/WalWriter, damaged exhaustively (every truncation length, every single-bit flip for small images) and by field-aware garbage / zero-fill / header games, recovered by a fresh WalRotator and checked against the append-time ground truth; truncate_before checked on rebuilt layouts",
+        level_text="Layouts of 1-5 WAL files with 0-12 entries each (payloads 1-300 bytes, incl. payloads that contain a valid encoded entry or a file header; stamps monotone, shuffled, 16 interleaved clocks, extremes) are written through the real writer over the in-memory store. For small layouts every truncation length and every single-bit flip of every file is applied (exhaustive), larger ones get every header bit plus sampled payload positions; every field is also overwritten with garbage and zeros, zero-filled to the end, the file zero-extended, given a duplicated or foreign header. Recovery (recover_all_entries, recover_entries_after) must return only appended entries, bit-identical, in append order per file, every intact entry before the first damaged one, and all entries of undamaged files, without panicking. truncate_before(T) on rebuilt layouts (with and without an open writer, with a torn file) must keep the active file and every entry stamped later than T.",
+        level_note="crash/corruption model = arbitrary damage to one file's bytes; ground truth recorded at append time; entries are created with the checksum the code's own validate() accepts",
+        rule="case = one damaged image of one WAL file recovered by a fresh WalRotator, or one truncate_before(T) on a rebuilt layout; distinct_nontrivial = distinct (damaged field, damage kind, position class, layout class) + (layout class, writer open, T relative to the stamps, torn, T equals a stamp)",
+        exhaustive_note="exhaustive over truncation lengths and single-bit flips for the small layouts only",
+        assumptions=COMMON_ASSUME,
+        legs=[leg("wal", "c10-wal", "rel", quick=2, thorough=16)],
+    ),
+    "C14": dict(
+        level="exploration",
+        technique="runtime monitor: round trips of grown replicated values through every encoding (WAL entry and file, segment, checkpoint via RecoveryManager::recover, gossip JSON shapes) compared structurally; exhaustive truncation / bit-flip mutants of small images through the real open-validate-read pipeline",
+        level_text="Batches of 1-200 deltas of every CRDT kind (LWW, hash, G/PN counter, G/OR set; empty, 64 KiB, all byte values, invalid UTF-8, tombstones, vector clocks, expiry, rf, u64::MAX stamps) are pushed through WalEntry / WAL file / segment / checkpoint (the last two through RecoveryManager::recover over the in-memory object store) and all five gossip JSON message shapes, and compared on an accessor projection plus canonicalised serialised fields. Images up to 2 KiB are then damaged with every truncation length and every single-bit flip (sampled beyond), field-aware garbage and zero-fill; the pipeline must answer with an error (or end WAL recovery) or with identical content - never with different data.",
+        level_note="corruption of padding / reserved / unused footer bytes that decodes to the same content is counted as benign; LocalWalStore / LocalFsObjectStore are not used (in-memory stores only)",
+        rule="case = one batch through all encodings, or one damaged image through the read pipeline; distinct_nontrivial = distinct (kind, vector clock / expiry / rf / tombstone / empty-key presence, batch size) + (target, damaged field, damage kind, outcome)",
+        exhaustive_note="exhaustive over truncation lengths and single-bit flips for images up to 2 KiB only",
+        assumptions=COMMON_ASSUME,
+        legs=[leg("codec", "c14-codec", "rel", quick=2, thorough=16)],
     ),
     "C15": dict(
         level="exploration",
